@@ -610,6 +610,15 @@ def run_C09(ctx):
     for n in range(1, 9 if not ctx.quick else 7):
         for pat in itertools.product(range(3), repeat=n):
             cases.append("best " + hexs(b"".join(reps[i] for i in pat)))
+    # single-byte perturbation basis: every byte value at every position of uniform digit / alphanumeric strings whose
+    # lengths straddle word-sized blocks (8, 16) -- catches block-wise "optimised" scanners
+    for base in (b"7", b"K"):
+        for ln in ([1, 3, 7, 8, 9, 16, 17] if ctx.quick else [1, 2, 3, 4, 7, 8, 9, 15, 16, 17, 24, 31, 32, 33]):
+            for pos in range(ln):
+                for b in range(256):
+                    d = bytearray(base * ln)
+                    d[pos] = b
+                    cases.append("best " + hexs(bytes(d)))
     for _ in range(300 if ctx.quick else 5000):
         n = rng.randrange(1, 400)
         m = rng.randrange(3)
